@@ -42,6 +42,24 @@ CLAIMED = {
         text="Theorems C04_*: with no time limit a timeout is never reported, for every child and schedule (holds only since the fix of F1); the poll() argument is within 0..i32::MAX ms for every duration; across any history of timed-out and successful reads no byte is lost or repeated and the rest of the input stays queued once.  PARTIAL: 'returns by t + one I/O step' and 'TimedOut only after t elapsed (ms granularity)' are checked on the real code by the E1 monitors under virtual time (limits 0, 1 ns, sub-ms, > 2^31 ms, 30 days; flooding, silent, trickling children), not yet proved in Coq.",
         note="Trusted: as C01; wall-clock meaning of the virtual clock rests on the OS honouring poll timeouts.",
         design="5/C04"),
+    "C05": dict(
+        engine="E2-logged-real-spawns",
+        technique="Coq: exhaustive evaluation (vm_compute in the kernel, lifted by forallb_forall) of a model of Popen::create with explicit Rust ownership on a descriptor-table kernel model with tagged-atom descriptors, over all 536 listed configurations; tied to the code by comparing the logged libc call sequence of every real spawn (parent and child) with the model's",
+        text="Theorems C05_*: for all 6x6x7 redirection combinations (incl. one file shared by several streams, merge onto inherited/piped/file-backed streams) x detached, and all option subsets: the child's 0,1,2 refer to exactly the requested open file, the Popen has a handle iff piped, invalid combinations are refused with a logic error before any fork with nothing left open; under every injected failure the parent's own 0,1,2 are never closed or altered and the cached standard-stream handles keep >= 2 references.  Universal in the real descriptor numbers by the atom abstraction; every real run's descriptor numbers are mapped to atoms and the call sequences compared.",
+        note="Trusted: Coq kernel; the atom abstraction (fresh descriptors distinct from open ones, 0,1,2 open, caller files >= 3) and the drop order written into Lib/Spawn.v are modelling, validated call by call against real runs; realdrive interposers; childstub self-report.  Spawns from several threads: see C08.",
+        design="5/C05"),
+    "C07": dict(
+        engine="E2-logged-real-spawns",
+        technique="Coq: exhaustive evaluation of the launch model over every configuration x every reachable injection point x exec success/failure (completeness of the injection list is itself a theorem), plus the errno codec round trip by lia; real spawns with the same faults injected through interposed libc calls",
+        text="Theorems C07_*: Ok iff the image started; Ok only after EOF on the status pipe; after any failure (k-th pipe, k-th fcntl, fork, child dup2/chdir/signal/setuid/setgid/setpgid/exec) no descriptor of the attempt remains and a forked child has been reaped, detached or not; the error is that of the failing step; the 4-byte errno codec round-trips for every 32-bit value.  Real Popen::create is run with each fault injected; call sequences, result, descriptor table before/after and wait4(-1) are compared / checked.",
+        note="Trusted: as C05; one representative errno per injection point in the Coq sweep (the model never inspects the value; the real runs use several).",
+        design="5/C07"),
+    "C08": dict(
+        engine="E2-logged-real-spawns",
+        technique="Coq: exhaustive evaluation of the child's descriptor table at exec and of the holder counts of every pipe, with earlier Popens' close-on-exec ends present in the parent; children's real descriptor tables self-reported",
+        text="Theorems C08_*: at exec the child holds only 0,1,2 and descriptors the application itself made inheritable -- no parent-side end, no status-pipe end, no end of an earlier child's pipe -- under every injected failure; every library descriptor left in the parent is close-on-exec (so the next spawn starts from the same invariant: histories on one thread); each pipe has exactly one parent-side holder, so EOF propagates at once.  PARTIAL: concurrent spawns from several threads are not modelled (known finding F9).",
+        note="Trusted: as C05.",
+        design="5/C08"),
     "C09": dict(
         engine="E1-kernel-in-the-loop",
         technique="Coq proof (invariants by induction over executions of the Popen state machine on a process model; finite sweep over all exit codes and signals) + kernel-in-the-loop correspondence: the real Popen methods run on a virtual process and clock served by the extracted model",
@@ -60,6 +78,12 @@ CLAIMED = {
         text="Theorems C11_*: poll issues at most clock/waitpid(WNOHANG)/clock, no sleep, no error; wait_timeout(d) says 'still running' no earlier than d and no later than d + 4D + O (D, O bounds on call duration and oversleep), reports an exit at any instant te within max(te,start) + 100 ms + 4D + O with the true status, returns at once when the status is known, sleeps a positive time between status checks, and makes at most 8 + ceil(d/100ms) status checks -- for every d and exit time.  The real wait_timeout/poll run against the virtual clock of the extracted model; sleep arguments, call counts and return instants are compared.",
         note="Trusted: as C09; wall-clock meaning of the virtual clock rests on the OS honouring sleeps (std::thread::sleep sleeps at least the request).  Waits of days/weeks on a live child are covered by the theorem only (22 million iterations are not executed).",
         design="5/C11"),
+    "C18": dict(
+        engine="E2-logged-real-spawns",
+        technique="Coq: exhaustive evaluation of the child's effects list (mask emptied, SIGPIPE default, then identity calls, then exec) over all configurations; real spawns under 64+ random signal masks and both SIGPIPE dispositions with the child's inherited state captured before the Rust runtime starts",
+        text="Theorem C18_child_signal_state: in every started child the signal mask is emptied and SIGPIPE reset to default before any identity change and before exec, for all configurations; the state at exec therefore does not depend on the spawning thread's mask or the parent's disposition.  Real children report SigBlk and the SIGPIPE handler they inherited (read in an ELF init function, before Rust's runtime ignores SIGPIPE).",
+        note="Trusted: as C05; signals are two abstract effects in the model, their OS meaning is checked on the real kernel by the children's self-reports.",
+        design="5/C18"),
 }
 
 ALL = ["C%02d" % i for i in range(1, 21)]
@@ -94,6 +118,8 @@ def main():
             "add_only": True,
         },
         "engines": [
+            {"name": "E2-logged-real-spawns", "path": "harness/src/bin/realdrive.rs + harness/src/bin/childstub.rs + tools/e2.py", "serves_properties": ["C05", "C06", "C07", "C08", "C12", "C13", "C14", "C15", "C16", "C17", "C18"],
+             "kind_free_text": "real spawns on the real kernel; every relevant libc call of parent and forked child is logged (and failed on request) by interposers, allocations in the child are logged; call sequences are compared with the Gallina model"},
             {"name": "E1-kernel-in-the-loop", "path": "harness/src/bin/simdrive.rs + ocaml/src/spsim.ml", "serves_properties": ["C01", "C02", "C03", "C04", "C09", "C10", "C11"],
              "kind_free_text": "the real library runs on fake descriptors, a virtual clock and a virtual child served live by the extracted Coq kernel model; the library model is stepped in lockstep and compared call by call"},
             {"name": "E3-pure", "path": "harness/src/bin/puredrive.rs", "serves_properties": ["C19", "C20"],
